@@ -11,6 +11,7 @@ import NmVerif.NN.AxisLemmas
 import NmVerif.NN.ChanLemmas
 import NmVerif.NN.GroupNormLemmas
 import NmVerif.NN.CosineLemmas
+import NmVerif.NN.BilinearLemmas
 /-
   C17 — neural-network routines equal their reference (PyTorch) definitions.
 
@@ -748,6 +749,26 @@ example :
     (bilinear (· + ·) (· * ·) a a w (some c)).map (fun v => (v.shape, v.get [1, 0, 1]))
       = some ([2, 1, 2], some (3 * 5 * 3 + 3 * 6 * 4 + 4 * 7 * 3 + 4 * 8 * 4 + 200)) := by
   decide
+
+/-- **bilinear on rank-2 inputs** `x : (B, I)`, `y : (B, J)`, weight `(O, I, J)`, optional bias `(O)`, any positive extents,
+    abstract `add` / `mul`: the composition (`matmulv2` of `x` with the weight stack — C16 model —, broadcast `multiply`
+    with `y`, `sum` over the last axis, `transpose`, bias) exists, has the shape `(B, O)`, and
+    `out[b, o] = Σ_j (Σ_i x[b,i]·w[o,i,j]) · y[b,j] (+ c[o])` — `bilinearAt`: every inner sum is a left fold over
+    `i = 0 .. I−1` from its first product, the outer one over `j = 0 .. J−1`; the bias is added to the finished sum.
+    (Other ranks: compared with the real code and the oracle on every run; rank ≥ 4: `bilinear_rank4_counterexample`.) -/
+theorem bilinear_rank2_eq_def {α : Type} (add mul : α → α → α) (x y w : Arr α) (bias : Option (Arr α)) (B I J O : Nat)
+    (hx : x.shape = [B, I]) (hy : y.shape = [B, J]) (hw : w.shape = [O, I, J]) (hb : ∀ c, bias = some c → c.shape = [O])
+    (hB : 0 < B) (hI : 0 < I) (hJ : 0 < J) (hO : 0 < O) :
+    ∃ v, bilinear add mul x y w bias = some v ∧ v.shape = [B, O] ∧ ∀ b o, b < B → o < O →
+      v.get [b, o] = match bias with
+        | none => bilinearAt add mul x.get y.get w.get I J b o
+        | some c => (bilinearAt add mul x.get y.get w.get I J b o).map (fun S => add S (c.get [o])) :=
+  bilinear_rank2 add mul x y w bias B I J O hx hy hw hb hB hI hJ hO
+
+/-- non-vacuity: `x = [[1,2]]`, `y = [[3,4,5]]`, `w[o,i,j] = 1`: `out[0,0] = (1+2)·3 + (1+2)·4 + (1+2)·5` -/
+example :
+    bilinearAt (· + ·) (· * ·) (fun d => match d with | [_, i] => ((i + 1 : Nat) : Int) | _ => 0)
+      (fun d => match d with | [_, j] => ((j + 3 : Nat) : Int) | _ => 0) (fun _ => 1) 2 3 0 0 = some 36 := by decide
 
 /-! ## convolution -/
 
